@@ -375,9 +375,10 @@ def run_check(prop, tier, seed):
         'wall_s': wall,
         'violations': merged['violation_count'] - sum(v['count'] for v in listed.values()) if unlisted else 0,
     }
-    os.makedirs(os.path.join(VERIF, 'evidence'), exist_ok=True)
-    with open(os.path.join(VERIF, 'evidence', f'{prop}.json'), 'w') as f:
-        json.dump(evidence, f, indent=1, default=str, sort_keys=True)
+    if not os.environ.get('GV_NO_EVIDENCE'):  # set only by tools/mutants.py (runs against scratch copies)
+        os.makedirs(os.path.join(VERIF, 'evidence'), exist_ok=True)
+        with open(os.path.join(VERIF, 'evidence', f'{prop}.json'), 'w') as f:
+            json.dump(evidence, f, indent=1, default=str, sort_keys=True)
 
     print(
         f'{prop} tier={tier} seed={seed}: {status}; {merged["evaluations"]} monitored executions, '
